@@ -14,6 +14,7 @@ import ParryModel.C08.Theorems8
 import ParryModel.C08.Theorems9
 import ParryModel.C08.Theorems10
 import ParryModel.C08.Theorems11
+import ParryModel.C08.Theorems12
 /-!
 # C08 property theorems: the QBVH stays valid under any history
 
